@@ -2,29 +2,39 @@
    every collection's counting commands agree with its enumerating commands (Map model), and the
    witnesses that the pre-fix definitions break the invariant. *)
 From ZV Require Import Common.Bytes Common.BytesFacts Data.Consts Data.Base Data.BaseFacts Data.Map Data.MapZ Data.MapL Data.MapK
-  Data.Run Data.RepColl Data.RepHS Data.RepL Data.RepZ Data.RepRead Data.RepState Data.PreFix.
+  Data.Run Data.RepColl Data.RepHS Data.RepL Data.RepZ Data.RepRead Data.RepState Data.PreFix Data.ExpFacts.
 From Coq Require Import Lia.
 Open Scope Z_scope.
 
-Definition all_agree (s : mstate) (key : bytes) : Prop :=
-  hash_agree key (alook empty_coll key (m_hash s)) /\
-  set_agree key (alook empty_coll key (m_set s)) /\
-  zset_agree key (alook empty_zcoll key (m_zset s)) /\
-  list_agree key (alook empty_lcoll key (m_list s)).
+(* what a reader with wall clock `now` sees of the collections stored at one key *)
+Definition all_agree (compact : bool) (now : Z) (s : mstate) (key : bytes) : Prop :=
+  hash_agree key (xview forget_c compact now (alook (x0 empty_coll) key (m_hash s))) /\
+  set_agree key (xview forget_c compact now (alook (x0 empty_coll) key (m_set s))) /\
+  zset_agree key (xview forget_z compact now (alook (x0 empty_zcoll) key (m_zset s))) /\
+  list_agree key (xview forget_l compact now (alook (x0 empty_lcoll) key (m_list s))).
 
-Lemma reps_all_agree compact clock s key : RepS compact clock s -> all_agree s key.
+Lemma reps_all_agree compact clock now s key : RepS compact clock s -> all_agree compact now s key.
 Proof.
   intros [A B C D]. split; [|split; [|split]].
-  - apply (rep_hash_agree compact clock). apply alook_rec; [apply RepC_empty|exact A].
-  - apply (rep_set_agree compact clock). apply alook_rec; [apply RepC_empty|exact B].
-  - apply (rep_zset_agree compact clock). apply alook_rec; [apply RepZ_empty|exact C].
-  - apply (rep_list_agree compact clock). apply alook_rec; [apply RepL_empty|exact D].
+  - apply (rep_hash_agree compact clock).
+    apply (xview_inv forget_c compact (RepC compact clock)); [intros Cc r; apply forget_c_rep; exact Cc|].
+    apply (alook_rec (XP (RepC compact clock))); [apply RepC_empty|exact A].
+  - apply (rep_set_agree compact clock).
+    apply (xview_inv forget_c compact (RepC compact clock)); [intros Cc r; apply forget_c_rep; exact Cc|].
+    apply (alook_rec (XP (RepC compact clock))); [apply RepC_empty|exact B].
+  - apply (rep_zset_agree compact clock).
+    apply (xview_inv forget_z compact (RepZ compact clock)); [intros Cc r; apply forget_z_rep; exact Cc|].
+    apply (alook_rec (XP (RepZ compact clock))); [apply RepZ_empty|exact C].
+  - apply (rep_list_agree compact clock).
+    apply (xview_inv forget_l compact (RepL compact clock)); [intros Cc r; apply forget_l_rep; exact Cc|].
+    apply (alook_rec (XP (RepL compact clock))); [apply RepL_empty|exact D].
 Qed.
 
-Theorem rep_all_sequences compact cs : increasing 0 cs -> RepS compact (last_ts 0 cs) (map_run compact cs m_init).
+Theorem rep_all_sequences compact now cs : increasing 0 cs -> RepS compact (last_ts 0 cs) (map_run compact now cs m_init).
 Proof. intros I. apply map_run_rep; [apply RepS_init|lia|exact I]. Qed.
 
-Theorem agree_all_sequences compact cs key : increasing 0 cs -> all_agree (map_run compact cs m_init) key.
+(* the reads inside the sequence and the final reader may have different clocks *)
+Theorem agree_all_sequences compact now now' cs key : increasing 0 cs -> all_agree compact now' (map_run compact now cs m_init) key.
 Proof. intros I. eapply reps_all_agree. apply rep_all_sequences; exact I. Qed.
 
 (* every prefix of a sequence is a sequence *)
@@ -33,37 +43,60 @@ Proof.
   induction n as [|n IH]; intros clock cs I; cbn; [exact Logic.I|].
   destruct cs as [|[ts c] r]; cbn; [exact Logic.I|]. destruct I as [I1 I2]. split; [exact I1|apply IH; exact I2].
 Qed.
-Theorem agree_every_prefix compact cs key n : increasing 0 cs -> all_agree (map_run compact (firstn n cs) m_init) key.
+Theorem agree_every_prefix compact now now' cs key n : increasing 0 cs ->
+  all_agree compact now' (map_run compact now (firstn n cs) m_init) key.
 Proof. intros I. apply agree_all_sequences, increasing_firstn; exact I. Qed.
 
 (* ---------- where the timestamps matter ----------
-   Without expiry commands the raft timestamp reaches the data only as the generation (ValueVersion) that
-   wait_compact gives a collection created while no meta key exists (prepareCollKeyForWrite / renewOnExpired).
-   Under local_deletion the Map model does not look at it at all: *)
-Lemma map_step_local_ts ts ts' c s : map_step false ts c s = map_step false ts' c s.
+   The raft timestamp reaches the collections as the generation (ValueVersion) that wait_compact gives a
+   collection created while no live meta key exists (prepareCollKeyForWrite / renewOnExpired) and as the
+   clock of the expiry decision.  Under local_deletion nothing is ever expired for a command and the
+   generation is 0: the invariant needs no hypothesis on the timestamps there. *)
+Lemma RepS_local_clock clock clock' s : RepS false clock s -> RepS false clock' s.
 Proof.
-  destruct c; reflexivity.
+  assert (HC : forall V (c : coll V), RepC false clock c -> RepC false clock' c).
+  { intros V c [A B N D E]. constructor; auto. }
+  assert (HL : forall l, RepL false clock l -> RepL false clock' l).
+  { intros l [A B N D]. constructor; auto. }
+  intros [A B C D]. constructor.
+  - eapply all_recs_mono; [|exact A]. intros v; apply HC.
+  - eapply all_recs_mono; [|exact B]. intros v; apply HC.
+  - eapply all_recs_mono; [|exact C]. intros v [R1 R2]; constructor; [apply HC; exact R1|exact R2].
+  - eapply all_recs_mono; [|exact D]. intros v; apply HL.
 Qed.
 
-Fixpoint renum (n : Z) (cs : list (Z * cmd)) : list (Z * cmd) :=
-  match cs with [] => [] | (_, c) :: r => (n, c) :: renum (n + 1) r end.
-Lemma renum_increasing cs : forall n, increasing (n - 1) (renum n cs).
-Proof. induction cs as [|[t c] r IH]; intros n; cbn; [exact I|]. split; [lia|]. replace n with (n + 1 - 1) at 1 by lia. apply IH. Qed.
-Lemma renum_length cs : forall n, length (renum n cs) = length cs.
-Proof. induction cs as [|[t c] r IH]; intros n; cbn; [reflexivity|]. rewrite IH; reflexivity. Qed.
-Lemma renum_map_run cs : forall n s, map_run false (renum n cs) s = map_run false cs s.
+(* the collections after a step under local_deletion do not depend on the timestamp *)
+Definition colls (s : mstate) := (m_hash s, m_set s, m_zset s, m_list s).
+Lemma map_step_local_ts now ts ts' c s :
+  colls (fst (map_step false now ts c s)) = colls (fst (map_step false now ts' c s)).
 Proof.
-  induction cs as [|[t c] r IH]; intros n s; cbn [renum map_run fold_left fst snd]; [reflexivity|].
-  rewrite (map_step_local_ts n t c s). apply IH.
+  destruct c; try reflexivity.
+  - cbn [map_step]. destruct (negb (key_ok key)); [reflexivity|].
+    destruct t; unfold aupd, xexpire; cbn [dead andb orb];
+      match goal with |- context [alook ?d ?k ?m] => destruct (negb (_ (x_r (alook d k m)))) end; cbn [fst];
+      repeat match goal with |- context [if ?b then _ else _] => destruct b end; reflexivity.
+  - cbn [map_step]. destruct (MapK.kstep false ts c (m_kv s)), (MapK.kstep false ts' c (m_kv s)). reflexivity.
 Qed.
 
-
-Theorem rep_local_any_timestamps cs : exists clock, RepS false clock (map_run false cs m_init).
+Lemma RepS_colls compact clock s s' : colls s = colls s' -> RepS compact clock s -> RepS compact clock s'.
 Proof.
-  exists (last_ts 0 (renum 1 cs)). rewrite <- (renum_map_run cs 1). apply rep_all_sequences. apply (renum_increasing cs 1).
+  unfold colls. intros E [A B C D]. injection E as E1 E2 E3 E4.
+  constructor; [rewrite <- E1|rewrite <- E2|rewrite <- E3|rewrite <- E4]; assumption.
 Qed.
-Theorem agree_local_any_timestamps cs key : all_agree (map_run false cs m_init) key.
-Proof. destruct (rep_local_any_timestamps cs) as [clock R]. eapply reps_all_agree; exact R. Qed.
+
+Theorem map_step_rep_local clock now ts c s : RepS false clock s -> RepS false clock (fst (map_step false now ts c s)).
+Proof.
+  intros R. apply (RepS_colls false clock (fst (map_step false now 1 c s))); [apply map_step_local_ts|].
+  apply (RepS_local_clock 1). apply (map_step_rep false 0); [|lia]. apply (RepS_local_clock clock); exact R.
+Qed.
+
+Theorem rep_local_any_timestamps now cs : forall s clock, RepS false clock s -> RepS false clock (map_run false now cs s).
+Proof.
+  induction cs as [|[t c] r IH]; intros s clock R; cbn [map_run fold_left fst snd]; [exact R|].
+  apply IH. apply map_step_rep_local; exact R.
+Qed.
+Theorem agree_local_any_timestamps now now' cs key : all_agree false now' (map_run false now cs m_init) key.
+Proof. eapply reps_all_agree. apply (rep_local_any_timestamps now cs m_init 0). apply RepS_init. Qed.
 
 (* ---------- the pre-fix definitions break it (vm_compute witnesses; inputs of corpus/C09) ---------- *)
 Local Open Scope N_scope.
@@ -134,6 +167,6 @@ Proof. vm_compute. split; reflexivity. Qed.
 Definition equal_ts_hash : list (Z * cmd) :=
   [ (5, CHset true k_ts b_a b_1); (5, CHclear k_ts); (5, CHset true k_ts b_b b_1) ].
 Lemma equal_ts_breaks_agree :
-  let c := alook empty_coll k_ts (m_hash (map_run true equal_ts_hash m_init)) in
+  let c := x_r (alook (x0 empty_coll) k_ts (m_hash (map_run true 0 equal_ts_hash m_init))) in
   hlen k_ts c = RInt 1 /\ hkeys k_ts c = rbulks [b_a; b_b].
 Proof. vm_compute. split; reflexivity. Qed.
